@@ -2,6 +2,8 @@
 
 from . import buildrules, common, runrules, predicates, shutrules
 
+from . import graphrules
+
 
 def check(ctx, rep):
     rep.explanation = (
@@ -14,7 +16,7 @@ def check(ctx, rep):
         "inside its own task; the nested form returns only after the awaited inherited run. R01.5 `done` speaks "
         "about this run: the task registry of every member (nested schedulers included) is reset before the "
         "first start and written only by the start path. R01.6 of the job's mutable state is_done() reads only "
-        "that registry (any other attribute it reads is constructor-only, or reset with the registry). R01.7 a subclass constructor hands on every parameter it shares with its parent constructor (e.g. `required=` of a nested scheduler). R01.8 (= R19.1-R19.5) the requirement edges a run obeys are those the construction API documents (sequence chains included). R01.9 (= R05.4) a tidy cancels and then awaits without bound: the run of a nested scheduler is over only when its jobs are. R01.10 (= R11.2) the same when that run is cancelled: no exit of a nested run, CancelledError edges included, leaves one of its job tasks alive - a job requiring the nested scheduler would start while jobs of it still run. R01.11 (= R19.9) a sequence never drops a requirement it was given, and keeps it as given while it is empty.")
+        "that registry (any other attribute it reads is constructor-only, or reset with the registry). R01.7 a subclass constructor hands on every parameter it shares with its parent constructor (e.g. `required=` of a nested scheduler). R01.8 (= R19.1-R19.5) the requirement edges a run obeys are those the construction API documents (sequence chains included). R01.9 (= R05.4) a tidy cancels and then awaits without bound: the run of a nested scheduler is over only when its jobs are. R01.10 (= R11.2) the same when that run is cancelled: no exit of a nested run, CancelledError edges included, leaves one of its job tasks alive - a job requiring the nested scheduler would start while jobs of it still run. R01.11 (= R19.9) a sequence never drops a requirement it was given, and keeps it as given while it is empty. R01.12 (= R18.1-3) the graph surgery (keep_only, keep_only_between, bypass_and_remove) sanitizes only once the member set is final and re-links what it removes: a requirement between two kept jobs is never dropped on the way.")
     rep.declined = ["asyncio's own semantics (T1-T3)"]
     rep.trusted = ["T1 asyncio.wait partitions its argument", "T2 create_task does not run the coroutine synchronously",
                    "T5 Task._state/_exception/_result meaning", "T8 Python MRO and short-circuit semantics"]
@@ -29,3 +31,4 @@ def check(ctx, rep):
     runrules.tidy_shape(ctx, rep, "R01.9")
     shutrules.cancellation_edges(ctx, rep, "R01.10")
     buildrules.sequence_keeps_requirements(ctx, rep, "R01.11")
+    graphrules.surgery(ctx, rep, "R01.12", "R01.12", "R01.12")
